@@ -1411,3 +1411,25 @@ Proof.
     + apply Nat.eqb_neq in E. apply Z.eqb_neq. intro; subst y. apply E.
       apply (proj1 (NoDup_nth_error (g_lns g)) Hnd); [exact Hlt|congruence].
 Qed.
+
+(* tcp with a server-chosen port: after the only member left, the port that had been chosen is free
+   again in the manager, and a new group asking for "any port" can be given exactly that one *)
+Lemma recreate_tcp_port0 : forall s gid g lid s' j' lid',
+  nth_error (s_heap s) gid = Some g -> g_lns g = [lid] ->
+  leave_chan KTcp s gid lid = Some s' ->
+  rmem [g_real g] (s_used s') = false /\
+  (j_group j' = g_name g -> j_port j' = 0 -> j_pick j' = g_real g -> g_real g <> 0 ->
+   allowed s (g_real g) = true -> j_lis j' = true ->
+   exists s'', join_seq KTcp s' j' lid' = (s'', JOk (g_real g))).
+Proof.
+  intros s gid g lid s' j' lid' Hg Hl Hlv.
+  unfold leave_chan in Hlv. rewrite Hg, Hl in Hlv. simpl in Hlv. rewrite Z.eqb_refl in Hlv. simpl in Hlv.
+  destruct (g_closed g); [discriminate|]. inversion Hlv; subst s'. clear Hlv. simpl.
+  split; [unfold g_res; simpl; apply rmem_rdel_same|].
+  intros Hn Hp Hk Hr Ha Hli.
+  unfold join_seq, lookup. simpl. rewrite Hn, tab_get_tab_del.
+  unfold mutate. cbn [s_heap set_heap set_tab set_used]. rewrite nth_error_app_new.
+  simpl. unfold acquire. simpl. rewrite Hp, Hk. simpl. apply Z.eqb_neq in Hr. rewrite Hr.
+  unfold allowed in *. simpl. rewrite Ha. unfold g_res. simpl. rewrite rmem_rdel_same. simpl. rewrite Hli. simpl.
+  eexists. reflexivity.
+Qed.
